@@ -79,6 +79,7 @@ PROPS["C20"] = dict(
         dict(name="modes", run="^TestC20TreeModes$", shards=(2, 4), timeout=(200, 1200)),
         dict(name="links", run="^TestC20TreeLinks$", shards=(2, 4), timeout=(200, 1200)),
         dict(name="manyfiles", run="^TestC20TreeManyFiles$", shards=(3, 6), timeout=(200, 1200)),
+        dict(name="spellings", run="^TestC20TreeSpellings$", shards=(2, 4), timeout=(200, 1200)),
         dict(name="archive", run="^TestC20ArchiveRapid$", checks=(1500, 8000), shards=(4, 16), timeout=(200, 1200), shrinktime=("15s", "40s")),
         dict(name="hostile", run="^TestC20ArchiveExhaustive$", shards=(8, 16), timeout=(200, 1200)),
         dict(name="huge", run="^TestC20Huge$", shards=(1, 3), timeout=(600, 1200), enabled=(False, True)),
